@@ -3,7 +3,7 @@
 from __future__ import annotations
 
 from dataclasses import dataclass, field
-from typing import TYPE_CHECKING, Literal, overload
+from typing import TYPE_CHECKING, Any, Literal, overload
 
 import numpy as np
 import pandas as pd
@@ -95,12 +95,17 @@ class Simulation:
             include_surrogates=True,
         )
 
+    def _current_parameters(self) -> dict[str, Any]:
+        """Parameters as the model holds them now, to put them back after a read."""
+        return {k: v.value for k, v in self.model.get_raw_parameters().items()}
+
     def _compute_args(self) -> list[pd.DataFrame]:
         # Already computed
         if len(self.raw_args) > 0:
             return self.raw_args
 
-        # Compute new otherwise
+        # Compute new otherwise, reading must leave the model as it is
+        current = self._current_parameters()
         for res, p in zip(self.raw_variables, self.raw_parameters, strict=True):
             self.model.update_parameters(p)
             self.raw_args.append(
@@ -116,6 +121,7 @@ class Simulation:
                     include_readouts=True,
                 )
             )
+        self.model.update_parameters(current)
         return self.raw_args
 
     def _select_data(
@@ -422,13 +428,14 @@ class Simulation:
     ) -> pd.DataFrame | list[pd.DataFrame]:
         """Get right hand side over time."""
         args_by_simulation = self._compute_args()
+        current = self._current_parameters()
+        rhs = [
+            self.model.update_parameters(p).get_right_hand_side_time_course(args=args)
+            for args, p in zip(args_by_simulation, self.raw_parameters, strict=True)
+        ]
+        self.model.update_parameters(current)
         return self._adjust_data(
-            [
-                self.model.update_parameters(p).get_right_hand_side_time_course(
-                    args=args
-                )
-                for args, p in zip(args_by_simulation, self.raw_parameters, strict=True)
-            ],
+            rhs,
             normalise=normalise,
             concatenated=concatenated,
         )
@@ -472,6 +479,7 @@ class Simulation:
         concatenated: bool = True,
     ) -> pd.DataFrame | list[pd.DataFrame]:
         """Get fluxes of variable with positive stoichiometry."""
+        current = self._current_parameters()
         self.model.update_parameters(self.raw_parameters[0])
         names = [
             k
@@ -492,7 +500,7 @@ class Simulation:
                 for k in names:
                     v.loc[:, k] *= stoichs[k]
 
-        self.model.update_parameters(self.raw_parameters[-1])
+        self.model.update_parameters(current)
         if concatenated:
             return pd.concat(fluxes, axis=0)
         return fluxes
@@ -536,6 +544,7 @@ class Simulation:
         concatenated: bool = True,
     ) -> pd.DataFrame | list[pd.DataFrame]:
         """Get fluxes of variable with negative stoichiometry."""
+        current = self._current_parameters()
         self.model.update_parameters(self.raw_parameters[0])
         names = [
             k
@@ -556,7 +565,7 @@ class Simulation:
                 for k in names:
                     v.loc[:, k] *= -stoichs[k]
 
-        self.model.update_parameters(self.raw_parameters[-1])
+        self.model.update_parameters(current)
         if concatenated:
             return pd.concat(fluxes, axis=0)
         return fluxes
